@@ -32,7 +32,12 @@ def build():
 def run_demo(src):
     exe = "/tmp/val/demo_bin"
     if os.path.exists(os.path.join(src, "demo.sh")):
+        if os.path.exists(exe): os.remove(exe)
         r = sh("WT=%s BUILD=%s sh %s/demo.sh %s %s" % (WT, BUILD, src, WT, exe), timeout=600)
+        if r.returncode == 0 and os.path.exists(exe):
+            # a demo.sh that only builds (its header says: "then run <output-exe-path>")
+            r2 = sh("timeout 300 " + exe)
+            return r2.returncode, (r.stdout + r2.stdout)[-2000:]
         return r.returncode, r.stdout[-2000:]
     r = sh("g++ -std=c++11 -O1 -w -DMUSCLE_ENABLE_ZLIB_ENCODING -DMUSCLE_NO_EXCEPTIONS -I%s %s/demo.cpp %s/libmuscle.a -lz -lpthread -o %s" % (WT, src, BUILD, exe))
     if r.returncode != 0: return -999, "demo does not compile:\n" + r.stdout[-2000:]
